@@ -229,6 +229,107 @@ def tlc_gen(ctx, module, cfg, out_edges, cfgobj=None, timeout=900, xmx="6g", tag
     return {"edges": n, "states": len(ids), "tlc": r}
 
 
+def tlc_sim(ctx, module, cfg, out_traces, num, depth, cfgobj=None, timeout=900, tag=None):
+    """Random behaviours from the spec: `tlc -simulate` with the edge-printing ACTION_CONSTRAINT (no state CONSTRAINT in
+    the Sim cfg). Consecutive printed edges chain (t of one = s of the next); a break in the chain starts a new behaviour."""
+    raw = ctx.path((tag or os.path.basename(cfg)) + ".simraw")
+    r = run_tlc(ctx, module, cfg, workers=1, timeout=timeout, out_file=raw, tag=tag,
+                extra=["-simulate", "num=%d" % num, "-depth", str(depth), "-seed", str(ctx.seed)])
+    if r.get("timeout"):
+        raise ToolError("TLC timeout on %s" % cfg)
+    if r["errors"]:
+        sys.stdout.write(subprocess.run(["tail", "-n", "30", raw], stdout=subprocess.PIPE, text=True).stdout)
+        raise ToolError("simulation run failed on %s: %s" % (cfg, r["errors"][:2]))
+    # The simulator evaluates the ACTION_CONSTRAINT for every candidate successor of the current state, so the output
+    # is a sequence of batches (same source state); the successor taken is the one the next batch starts from.
+    ntr, nst = 0, 0
+    with open(raw) as f, open(out_traces, "w") as o:
+        o.write(json.dumps({"cfg": cfgobj or {}}) + "\n")
+        init = None
+        cur = []          # steps of the behaviour being assembled
+        batch, bsrc = [], None
+
+        def flush():
+            nonlocal cur, ntr, nst
+            if cur:
+                o.write(json.dumps({"steps": cur}, separators=(",", ":")) + "\n")
+                ntr += 1
+                nst += len(cur)
+            cur = []
+
+        for ln in f:
+            if not ln.startswith('"'):
+                continue
+            try:
+                rec = json.loads(json.loads(ln))
+            except Exception:
+                continue
+            if init is None:
+                init = rec["s"]
+            if bsrc is not None and rec["s"] != bsrc:
+                # batch complete: which successor leads to the new source?
+                nxt = [e for e in batch if e["t"] == rec["s"]]
+                if nxt:
+                    cur.append({"l": nxt[0]["l"], "o": nxt[0]["o"]})
+                    if rec["s"] == init and len(cur) >= depth - 1:
+                        flush()        # TLC restarted from the initial state (which an op may also reach: still valid)
+                else:
+                    flush()
+                    if rec["s"] != init:
+                        bsrc = None    # cannot anchor this batch; skip until the next restart
+                        batch = []
+                        continue
+                batch = []
+            bsrc = rec["s"]
+            batch.append(rec)
+        flush()
+    os.remove(raw)
+    if ntr == 0:
+        raise ToolError("simulation produced no behaviours: %s" % cfg)
+    ctx.cov["tlc_runs"].append({"cfg": cfg, "role": "simulation (random behaviours)", "behaviours": ntr, "steps": nst,
+                                "depth": depth, "wall_s": r["wall"]})
+    ctx.cov["transitions"] += nst
+    return {"traces": ntr, "steps": nst}
+
+
+def replay_traces(ctx, model, traces, timeout=3600):
+    out = ctx.path("replaytr_%s_%d.json" % (model, len(ctx.cov["replays"])))
+    p = vh(["replay-traces", model, traces, "--out", out], timeout=timeout)
+    if p.returncode != 0 or not os.path.exists(out):
+        sys.stdout.write(p.stdout[-3000:] + p.stderr[-3000:])
+        raise ToolError("harness replay-traces failed for %s (rc=%s)" % (model, p.returncode))
+    res = json.load(open(out))
+    fails = res.pop("failures")
+    samples = res.pop("samples")
+    ctx.cov["replays"].append(res)
+    ctx.cov["traces_validated_against_impl"] += res["behaviours"]
+    ctx.cov["evaluations"] += res["steps"]
+    ctx.cov["distinct_nontrivial"] += res["distinct_behaviours"]
+    if len(ctx.cov["samples"]) < 8:
+        ctx.cov["samples"] += samples[:1]
+    ctx.failures += fails
+    res["failures_n"] = res["failures_total"]
+    return res
+
+
+def graph_leg(ctx, module, model, gen_cfg, cfgobj, walks, walklen, allhist, sim_cfg=None, sim_num=0, sim_depth=0,
+              timeout=1500, sim_cfgobj=None):
+    """The standard L2 leg: dump + replay the bounded graph, then (optionally) spec-simulated deep behaviours."""
+    edges = ctx.path(gen_cfg + ".edges")
+    g = tlc_gen(ctx, module, gen_cfg, edges, cfgobj=cfgobj, timeout=timeout)
+    r = replay(ctx, model, edges, walks=walks, walklen=walklen, allhist=allhist)
+    log("  %s: %d edges / %d states; %d behaviours, %d steps, %d failures" % (
+        gen_cfg, g["edges"], g["states"], r["behaviours"], r["steps"], r["failures_n"]))
+    os.remove(edges)
+    if sim_cfg and sim_num:
+        tr = ctx.path(sim_cfg + ".traces")
+        s = tlc_sim(ctx, module, sim_cfg, tr, sim_num, sim_depth, cfgobj=sim_cfgobj or cfgobj, timeout=timeout)
+        r2 = replay_traces(ctx, model, tr)
+        log("  %s: %d simulated behaviours of depth <=%d (%d steps); %d failures" % (
+            sim_cfg, s["traces"], sim_depth, s["steps"], r2["failures_n"]))
+        os.remove(tr)
+
+
 # ----------------------------------------------------------------------------------------------
 # harness invocation
 
